@@ -93,6 +93,15 @@ FamTwo(kind) == { TwoCentres(kind, l1, l2, p1, p2) :
                     l1 \in { <<1, 9, 17>>, <<1, 1, 9>> }, l2 \in { <<1, 9, 17>>, <<9, 1, 17>>, <<1, 1, 9>>, <<1, 1, 1>> },
                     p1 \in {1, -1}, p2 \in {1, -1} }
 
+(* the same skeleton with either centre possibly WITHOUT a descriptor (p = 0): a stereo centre never matches an
+   unspecified one, whichever of the two graphs carries the descriptor *)
+TwoPartial(kind, l1, l2, p1, p2) ==
+   LET g == TwoCentres(kind, l1, l2, p1, p2) IN
+   [g EXCEPT !.ast = [a \in { x \in {1, 5} : (x = 1 /\ p1 # 0) \/ (x = 5 /\ p2 # 0) } |-> g.ast[a]]]
+FamTwoPartial(kind) == { TwoPartial(kind, l1, l2, p1, p2) :
+                           l1 \in { <<1, 9, 17>>, <<1, 1, 9>> }, l2 \in { <<1, 9, 17>>, <<1, 1, 9>> },
+                           p1 \in {1, -1, 0}, p2 \in {1, -1, 0} }
+
 TBPStar(kind, le, d) ==
    [Mk(kind, (1 :> 15) @@ [k \in 2..6 |-> le[k - 1]], StarBonds(6)) EXCEPT !.ast = (1 :> d)]
 TBPDescr == { D("TrigonalBipyramidal", <<1,2,3,4,5,6>>, 1), D("TrigonalBipyramidal", <<1,2,3,4,5,6>>, -1),
@@ -171,6 +180,7 @@ Family == CASE Fam = "alltet" -> AllPlace("SMG", "Tetrahedral", 6, <<1, 9, 17, 3
             [] Fam = "nopar"  -> FamNoPar
             [] Fam = "ethene" -> FamEthene("SMG")
             [] Fam = "two"   -> FamTwo("SMG")
+            [] Fam = "twop"  -> FamTwoPartial("SMG")
             [] Fam = "tbp"   -> FamTBP("SMG")
             [] Fam = "oct"   -> FamOct("SMG")
             [] Fam = "sn2"   -> FamSN2
